@@ -44,9 +44,23 @@ pub fn segments(rng: &mut Rng, max: usize) -> Vec<Seg> {
             4 => segs.push(Seg::Shell(format!("{}{}", rng.pick(&["HOME", "x", "a:-{b}", "{}", "1"]), ""))),
             _ => {
                 // repeated sections and sections differing in one argument
-                let ops = if !pool.is_empty() && rng.chance(1, 3) {
+                let ops = if !pool.is_empty() && rng.chance(2, 5) {
+                    // the same section again, or a near-duplicate differing in exactly one field
                     let mut o = rng.pick(&pool).clone();
-                    if rng.chance(1, 2) && !o.is_empty() { let k = rng.below(o.len()); if let Op::Split(s, r) = &o[k] { o[k] = Op::Split(format!("{s}x"), r.clone()); } else { o.push(Op::Join("+".into())); } }
+                    if rng.chance(2, 3) && !o.is_empty() { let k = rng.below(o.len()); o[k] = tweak_op(rng, &o[k]); }
+                    o
+                } else if rng.chance(1, 6) {
+                    // sections that differ only in a flag / letter case / one bound
+                    let base = match rng.below(6) {
+                        0 => Op::Replace("a".into(), "b".into(), String::new()),
+                        1 => Op::Surround("q".into()),
+                        2 => Op::Filter("a".into()),
+                        3 => Op::Pad(3, 'x', PDir::Right),
+                        4 => Op::Join("x".into()),
+                        _ => Op::Trim("ab".into(), TDir::Both),
+                    };
+                    let mut o = vec![Op::Split(",".into(), Range::Range(None, None, false)), Op::Join(",".into()), base];
+                    if rng.chance(1, 2) { o = vec![Op::Split(",".into(), Range::Range(None, None, false)), Op::Map(vec![o[2].clone()])]; }
                     o
                 } else { let len = rng.below(4); let mut o = wf_pipeline(rng, len); if rng.chance(1, 4) { o = vec![Op::Split(gens::sep(rng), gens::range(rng))]; } o };
                 pool.push(ops.clone());
@@ -56,6 +70,48 @@ pub fn segments(rng: &mut Rng, max: usize) -> Vec<Seg> {
     }
     segs
 }
+/// the same operation with exactly one field changed a little
+pub fn tweak_op(rng: &mut Rng, op: &Op) -> Op {
+    fn flip_case(s: &str) -> String {
+        let mut done = false;
+        let t: String = s.chars().map(|c| if !done && c.is_ascii_alphabetic() { done = true; if c.is_ascii_lowercase() { c.to_ascii_uppercase() } else { c.to_ascii_lowercase() } } else { c }).collect();
+        if done { t } else { format!("{s}x") }
+    }
+    fn tweak_range(rng: &mut Rng, r: &Range) -> Range {
+        match r {
+            Range::Index(i) => Range::Index(i.saturating_add(1).min(i64::MAX as i128)),
+            Range::Range(a, b, inc) => match rng.below(3) {
+                0 => Range::Range(*a, *b, !*inc),
+                1 => Range::Range(Some(a.unwrap_or(0).saturating_add(1).min(i64::MAX as i128)), *b, *inc),
+                _ => Range::Range(*a, Some(b.unwrap_or(2).saturating_sub(1).max(i64::MIN as i128)), *inc),
+            },
+        }
+    }
+    match op {
+        Op::Split(s, r) => if rng.chance(1, 2) { Op::Split(flip_case(s), r.clone()) } else { Op::Split(s.clone(), tweak_range(rng, r)) },
+        Op::Join(s) => Op::Join(flip_case(s)),
+        Op::Replace(p, r, f) => match rng.below(3) {
+            0 => Op::Replace(p.clone(), r.clone(), if f.contains('g') { f.replace('g', "") } else { format!("{f}g") }),
+            1 => Op::Replace(p.clone(), r.clone(), if f.contains('i') { f.replace('i', "") } else { format!("{f}i") }),
+            _ => Op::Replace(p.clone(), flip_case(r), f.clone()),
+        },
+        Op::Trim(c, d) => if rng.chance(1, 2) { Op::Trim(flip_case(c), *d) } else { Op::Trim(c.clone(), match d { TDir::Both => TDir::Left, TDir::Left => TDir::Right, TDir::Right => TDir::Both }) },
+        Op::Substring(r) => Op::Substring(tweak_range(rng, r)),
+        Op::Slice(r) => Op::Slice(tweak_range(rng, r)),
+        Op::Append(s) => Op::Append(flip_case(s)),
+        Op::Prepend(s) => Op::Prepend(flip_case(s)),
+        Op::Surround(s) => Op::Surround(flip_case(s)),
+        Op::Filter(p) => if gens::raw_ok(&flip_case(p), false) && !p.contains('\\') { Op::Filter(flip_case(p)) } else { Op::FilterNot(p.clone()) },
+        Op::FilterNot(p) => Op::Filter(p.clone()),
+        Op::Sort(d) => Op::Sort(match d { SDir::Asc => SDir::Desc, SDir::Desc => SDir::Asc }),
+        Op::Pad(w, c, d) => match rng.below(3) { 0 => Op::Pad(w + 1, *c, *d), 1 => Op::Pad(*w, if c.is_ascii_lowercase() { c.to_ascii_uppercase() } else if c.is_ascii_uppercase() { c.to_ascii_lowercase() } else { 'y' }, *d), _ => Op::Pad(*w, *c, match d { PDir::Left => PDir::Right, PDir::Right => PDir::Both, PDir::Both => PDir::Left }) },
+        Op::RegexExtract(p, g) => Op::RegexExtract(p.clone(), match g { None => Some(0), Some(g) => Some(g + 1) }),
+        Op::Map(b) => { let mut b2 = b.clone(); if !b2.is_empty() { let k = rng.below(b2.len()); b2[k] = tweak_op(rng, &b2[k]); } Op::Map(b2) }
+        Op::Upper => Op::Lower, Op::Lower => Op::Upper,
+        other => other.clone(),
+    }
+}
+
 /// text of the template and the sections the scanner must find (adjacent literal text merges)
 pub fn assemble(segs: &[Seg]) -> (String, Vec<Section>) {
     let mut text = String::new();
@@ -213,7 +269,9 @@ pub fn c18(opts: &Opts) -> Report {
             let segs = segments(&mut ctx.rng, 7);
             let (text, secs) = assemble(&segs);
             let nsec = secs.iter().filter(|s| matches!(s, Section::Sec(_))).count();
-            let pool: Vec<String> = (0..4).map(|_| if ctx.rng.chance(1, 5) { String::new() } else { gens::text(&mut ctx.rng, 3) }).collect();
+            let mut pool: Vec<String> = (0..4).map(|_| if ctx.rng.chance(1, 5) { String::new() } else { gens::text(&mut ctx.rng, 3) }).collect();
+            // two different inputs with the same 64-bit DefaultHasher value: the memo must not confuse them
+            if ctx.rng.chance(1, 3) { pool = vec![COLLIDE_A.to_string(), COLLIDE_B.to_string(), pool[0].clone()]; }
             let k = match ctx.rng.below(4) { 0 => nsec.saturating_sub(1), 1 => nsec + 2, _ => nsec };
             let inputs: Vec<Vec<String>> = (0..k).map(|_| { let n = match ctx.rng.below(5) { 0 => 0, 1 | 2 => 1, _ => 2 + ctx.rng.below(3) }; (0..n).map(|_| ctx.rng.pick(&pool).clone()).collect() }).collect();
             let ks = match ctx.rng.below(4) { 0 => nsec.saturating_sub(1), 1 => nsec + 1, 2 => 0, _ => nsec };
@@ -282,9 +340,25 @@ pub fn c20(opts: &Opts) -> Report {
                 1 => { let (t, _) = assemble(&segments(&mut ctx.rng, 6)); let cs: Vec<char> = t.chars().collect(); if cs.is_empty() { t } else { let p = ctx.rng.below(cs.len()); let mut c2 = cs.clone(); c2.insert(p, *ctx.rng.pick(&['{', '}', '$', '\\'])); c2.into_iter().collect() } }
                 _ => assemble(&segments(&mut ctx.rng, 8)).0,
             };
+            // sometimes put the inline debug marker into one of the sections
+            let text = if ctx.rng.chance(1, 4) { match text.find('{') { Some(p) if !text[..p].ends_with('$') => format!("{}!{}", &text[..=p], &text[p + 1..]), _ => text } } else { text };
             ctx.rep.eval();
             let (ok, wire) = super::parsing::parse_agree(ctx, "C20", &text);
             if !ok { return; }
+            // the debug argument at parse time: Some(d) must win over inline markers, None takes them
+            for dbg in [Some(true), Some(false), None] {
+                let r = super::parsing::real_parse_wire(&text, Some(dbg));
+                let m = super::parsing::model_parse_wire(ctx, &text, Some(dbg));
+                if r != m {
+                    viol(ctx, "property", format!("C20: parse_with_debug({text:?}, {dbg:?}) gives [{}] but the model gives [{}]", r.chars().take(200).collect::<String>(), m.chars().take(200).collect::<String>()),
+                         vec![("template", text.clone()), ("debug_arg", format!("{dbg:?}")), ("observed", r.clone()), ("expected", m), ("theorem", "C20_debug_accessor / C10_parse_time_route".into())]);
+                    return;
+                }
+                if let (Some(d), true) = (dbg, r.starts_with("ok ")) {
+                    let flag = r.split(' ').nth(1) == Some("1");
+                    if flag != d { viol(ctx, "property", format!("C20: parse_with_debug({text:?}, Some({d})).is_debug() = {flag}"), vec![("template", text.clone()), ("theorem", "C20_debug_accessor".into())]); return; }
+                }
+            }
             let tpl = match real::parse(&text) { real::Parsed::Ok(t) => t, _ => { ctx.rep.bump("rejected"); return; } };
             let _ = wire;
             let secs = sections_from_real(&tpl);
@@ -363,7 +437,7 @@ pub fn c05(opts: &Opts) -> Report {
         opts.cases(150, 10_000), &|ctx, i| {
             let n = 2 + ctx.rng.below(if i % 10 == 0 { 119 } else { 30 });
             // pool for this history
-            let mut inputs: Vec<String> = vec![COLLIDE_A.into(), COLLIDE_B.into(), "a,b,c".into(), "a,b,d".into(), "a;b;c".into(), "hello world".into(), "HELLO world".into(), String::new()];
+            let mut inputs: Vec<String> = vec![COLLIDE_A.into(), COLLIDE_B.into(), "a,b,c".into(), "a,b,d".into(), "a;b;c".into(), "hello world".into(), "HELLO world".into(), "how o w\nHow".into(), String::new()];
             if i % 3 == 0 { inputs.push(big_input(&mut ctx.rng)); inputs.push(big_input(&mut ctx.rng)); }
             let templates: Vec<(String, Vec<Section>)> = {
                 let mut v: Vec<Vec<Seg>> = vec![
@@ -374,6 +448,12 @@ pub fn c05(opts: &Opts) -> Report {
                     vec![Seg::Sec(vec![Op::Replace("world".into(), "X".into(), "".into())])],
                     vec![Seg::Sec(vec![Op::Replace("world".into(), "X".into(), "i".into())])],
                     vec![Seg::Sec(vec![Op::Replace("o".into(), "0".into(), "g".into())])],
+                    // same pattern text under different flag sets (also the undocumented but accepted x): the regex cache key must tell them apart
+                    vec![Seg::Sec(vec![Op::Replace("o w".into(), "_".into(), "x".into())])],
+                    vec![Seg::Sec(vec![Op::Replace("o w".into(), "_".into(), String::new())])],
+                    vec![Seg::Sec(vec![Op::Replace("^h".into(), "J".into(), "m".into())])],
+                    vec![Seg::Sec(vec![Op::Replace("^h".into(), "J".into(), "im".into())])],
+                    vec![Seg::Sec(vec![Op::Split(" ".into(), Range::Range(None, None, false)), Op::Filter("o w".into())])],
                     vec![Seg::Sec(vec![Op::Split(",".into(), Range::Range(None, None, false)), Op::Filter("^[ab]$".into())])],
                     vec![Seg::Sec(vec![Op::Split(",".into(), Range::Range(None, None, false)), Op::Filter("(".into())])],   // failing call
                     vec![Seg::Sec(vec![Op::Upper]), Seg::Lit("-".into()), Seg::Sec(vec![Op::Upper])],
@@ -440,37 +520,47 @@ pub fn c17(opts: &Opts) -> Report {
     let mut o2 = Opts { prop: opts.prop.clone(), tier: opts.tier.clone(), seed: opts.seed, driver: opts.driver.clone(), out: opts.out.clone(), replay: opts.replay.clone(), threads: 1, corpus: opts.corpus.clone(), cli_bin: opts.cli_bin.clone() };
     o2.threads = 1;
     let mut rep = run_parallel(&o2, "C17",
-        "stress rounds: 2-16 threads format shared and per-thread template objects concurrently from cold caches (clear_caches() before every round) with workloads that make threads miss, fill and hit the same split / regex cache entries at the same time; every result is compared with the single-threaded model result (which, by C17_schedule_independent, every interleaving must produce); a watchdog flags a call that does not return; a round is non-trivial when the counters show cache hits, i.e. threads met on the same entries",
+        "stress rounds: 2-16 threads format shared and per-thread template objects concurrently from cold caches (clear_caches() before every round); every shared template object is formatted with SEVERAL different inputs at the same time, and the workloads make threads miss, fill and hit the same split / regex cache entries together; one round per run first fills the split cache with 3000 entries and then mixes hits and fresh misses; every result is compared with the single-threaded model result (which, by C17_schedule_independent, every interleaving must produce); a watchdog flags a call that does not return; a round is non-trivial when the counters show cache hits, i.e. threads met on the same entries",
         opts.cases(150, 10_000), &|ctx, i| {
             let nthreads = 2 + ctx.rng.below(15);
-            let mut work: Vec<(String, Vec<Section>, String)> = Vec::new();
-            let nitems = 4 + ctx.rng.below(8);
-            for _ in 0..nitems {
-                let segs = match ctx.rng.below(4) {
+            // templates (parsed once, shared) and inputs: every template meets every input
+            let mut templates: Vec<(String, Vec<Section>)> = Vec::new();
+            let ntpl = 2 + ctx.rng.below(4);
+            for _ in 0..ntpl {
+                let segs = match ctx.rng.below(5) {
                     0 => vec![Seg::Sec(vec![Op::Split(",".into(), Range::Range(None, None, false)), Op::Filter("[a-c]".into()), Op::Join("-".into())])],
                     1 => vec![Seg::Sec(vec![Op::Split(",".into(), gens::range(&mut ctx.rng))]), Seg::Lit("|".into()), Seg::Sec(vec![Op::Replace("a".into(), "b".into(), gens::flags(&mut ctx.rng))])],
+                    2 => vec![Seg::Sec(vec![Op::Upper]), Seg::Lit(" => ".into()), Seg::Sec(vec![Op::Split(",".into(), Range::Range(None, None, false)), Op::Map(vec![Op::Append("!".into())]), Op::Join("+".into())])],
                     _ => segments(&mut ctx.rng, 4),
                 };
-                let (text, secs) = assemble(&segs);
-                let x = match ctx.rng.below(4) { 0 => "a,b,c,d".to_string(), 1 => COLLIDE_A.to_string(), 2 => COLLIDE_B.to_string(), _ => gens::input_for(&mut ctx.rng, &[Op::Split(",".into(), Range::Index(0))]) };
-                work.push((text, secs, x));
+                templates.push(assemble(&segs));
             }
-            // expected results from the model (cache-free spec)
-            let expected: Vec<Out> = work.iter().map(|(_, secs, x)| model_format(ctx, false, secs, x).1).collect();
-            let shared: Vec<Option<Template>> = work.iter().map(|(t, _, _)| match real::parse(t) { real::Parsed::Ok(t) => Some(t), _ => None }).collect();
-            hooks::clear_caches(); hooks::reset_counters();
+            let mut inputs: Vec<String> = vec!["a,b,c,d".to_string(), COLLIDE_A.to_string(), COLLIDE_B.to_string()];
+            for k in 0..(2 + ctx.rng.below(5)) { inputs.push(format!("k{k},v{k}-a,v{k}-b,{}", gens::word(&mut ctx.rng))); }
+            let big_round = i == 0;
+            if big_round {
+                // fill the process-wide split cache well beyond any plausible bound, sequentially
+                hooks::clear_caches();
+                for k in 0..3000 { let _ = real::parse_format("{split:,:1}", &format!("fill{k},x{k}")); }
+            } else { hooks::clear_caches(); }
+            hooks::reset_counters();
+            let expected: Vec<Vec<Out>> = templates.iter().map(|(_, secs)| inputs.iter().map(|x| model_format(ctx, false, secs, x).1).collect()).collect();
+            let shared: Vec<Option<Template>> = templates.iter().map(|(t, _)| match real::parse(t) { real::Parsed::Ok(t) => Some(t), _ => None }).collect();
             ctx.rep.eval();
-            let reps = 6;
-            let results: Vec<Vec<(usize, Out)>> = std::thread::scope(|s| {
+            let reps = if big_round { 40 } else { 4 };
+            let npairs = templates.len() * inputs.len();
+            let results: Vec<Vec<(usize, usize, Out)>> = std::thread::scope(|s| {
                 let hs: Vec<_> = (0..nthreads).map(|t| {
-                    let work = &work; let shared = &shared;
+                    let templates = &templates; let shared = &shared; let inputs = &inputs;
                     s.spawn(move || {
                         let mut out = Vec::new();
                         for r in 0..reps {
-                            for k in 0..work.len() {
-                                let idx = (k + t + r) % work.len();
-                                let o = if (t + r) % 2 == 0 { match &shared[idx] { Some(tp) => real::format(tp, &work[idx].2), None => Out::Err } } else { real::parse_format(&work[idx].0, &work[idx].2) };
-                                out.push((idx, o));
+                            for k in 0..npairs {
+                                let p = (k * 7 + t * 3 + r) % npairs;
+                                let (ti, xi) = (p % templates.len(), p / templates.len());
+                                let x = if big_round && k % 3 == 0 { format!("fresh{t}-{r}-{k},y") } else { inputs[xi].clone() };
+                                let o = if (t + r) % 3 != 0 { match &shared[ti] { Some(tp) => real::format(tp, &x), None => Out::Err } } else { real::parse_format(&templates[ti].0, &x) };
+                                if !(big_round && k % 3 == 0) { out.push((ti, xi, o)); }
                             }
                         }
                         out
@@ -479,15 +569,15 @@ pub fn c17(opts: &Opts) -> Report {
                 hs.into_iter().map(|h| h.join().unwrap_or_default()).collect()
             });
             for (t, rs) in results.iter().enumerate() {
-                if rs.len() != reps * work.len() {
+                if rs.is_empty() && npairs > 0 && !big_round {
                     viol(ctx, "property", format!("C17: thread {t} of round {i} died"), vec![("round", format!("{}:{}", opts.seed, i)), ("theorem", "C17".into())]);
                     return;
                 }
-                for (idx, o) in rs {
+                for (ti, xi, o) in rs {
                     ctx.rep.bump("concurrent_calls");
-                    if *o != expected[*idx] {
-                        viol(ctx, "property", format!("C17: under {nthreads} threads format({:?}, {:?}) = {} but alone it is {}", work[*idx].0, work[*idx].2, o.show(), expected[*idx].show()),
-                             vec![("template", work[*idx].0.clone()), ("input", work[*idx].2.clone()), ("threads", nthreads.to_string()), ("round", format!("{}:{}", opts.seed, i)), ("observed", o.show()), ("expected", expected[*idx].show()), ("theorem", "C17_concurrent_formats".into())]);
+                    if *o != expected[*ti][*xi] {
+                        viol(ctx, "property", format!("C17: under {nthreads} threads format({:?}, {:?}) = {} but alone it is {}", templates[*ti].0, inputs[*xi], o.show(), expected[*ti][*xi].show()),
+                             vec![("template", templates[*ti].0.clone()), ("input", inputs[*xi].clone()), ("threads", nthreads.to_string()), ("round", format!("{}:{}", opts.seed, i)), ("observed", o.show()), ("expected", expected[*ti][*xi].show()), ("theorem", "C17_concurrent_formats".into())]);
                         return;
                     }
                 }
@@ -496,7 +586,8 @@ pub fn c17(opts: &Opts) -> Report {
             ctx.rep.add("split_hit", c[0]); ctx.rep.add("split_miss", c[1]); ctx.rep.add("regex_hit", c[3]); ctx.rep.add("regex_miss", c[4]);
             if c[0] + c[3] > 0 { ctx.rep.nontrivial(&(opts.seed, i)); }
             ctx.rep.bump(&format!("threads_{nthreads}"));
-            if i < 2 { ctx.rep.sample(format!("round {i}: {nthreads} threads x {} calls over {} (template, input) pairs; counters {c:?}", reps * work.len(), work.len())); }
+            if big_round { ctx.rep.bump("large_cache_rounds"); }
+            if i < 2 { ctx.rep.sample(format!("round {i}: {nthreads} threads x {} calls over {} shared templates x {} inputs{}; counters {c:?}", reps * npairs, templates.len(), inputs.len(), if big_round { " (split cache pre-filled with 3000 entries)" } else { "" })); }
         });
     rep.notes.push("atomicity of DashMap get/insert/entry is assumed by the model; this run is validation of that model against the real threads, not a proof about them".into());
     rep
@@ -525,6 +616,21 @@ pub fn c19(opts: &Opts) -> Report {
         "texts built by inserting 0-6 well-formed escape sequences (CSI colour / cursor / private-mode / with intermediates, OSC titles and hyperlinks with BEL and ST, two- and three-character escapes) at character boundaries of control-free Unicode text, at top level and inside map; plus arbitrary strings with ESC and control characters compared with the model; checks: strip(decorate) == text, identity on control-free text, idempotence, model == crate; non-trivial when at least one sequence was inserted; distinct by decorated text",
         opts.cases(5_000, 300_000), &|ctx, i| {
             ctx.rep.eval();
+            if i % 1000 == 500 {
+                // large control-free text whose multi-byte characters straddle 64 KiB block boundaries: must come back unchanged
+                let pad = 65_530 + ctx.rng.below(8);
+                let c = *ctx.rng.pick(&['é', '日', '😀']);
+                let mut s = "a".repeat(pad); for _ in 0..20 { s.push(c); } s.push_str(&"b".repeat(70_000)); for _ in 0..5 { s.push(c); }
+                ctx.rep.bump("large_inputs");
+                let got = real::parse_format("{strip_ansi}", &s);
+                if got != Out::Ok(s.clone()) {
+                    let pos = match &got { Out::Ok(g) => g.chars().zip(s.chars()).position(|(a, b)| a != b).unwrap_or(0), _ => 0 };
+                    viol(ctx, "property", format!("C19: a {}-byte control-free text is changed by strip_ansi (first difference at character {pos})", s.len()), vec![("template", "{strip_ansi}".into()), ("input_description", format!("'a' x {pad} + '{c}' x 20 + 'b' x 70000 + '{c}' x 5")), ("theorem", "C19_clean_text_unchanged".into())]);
+                }
+                let dec = format!("\x1b[31m{s}\x1b[0m");
+                if real::parse_format("{strip_ansi}", &dec) != Out::Ok(s.clone()) { viol(ctx, "property", format!("C19: a decorated {}-byte text is not restored", s.len()), vec![("template", "{strip_ansi}".into()), ("input_description", format!("ESC[31m + 'a' x {pad} + '{c}' x 20 + 'b' x 70000 + '{c}' x 5 + ESC[0m")), ("theorem", "C19_strip_decorate".into())]); }
+                return;
+            }
             if i % 4 == 3 {
                 // arbitrary bytes around ESC: model vs crate, idempotence
                 let n = ctx.rng.below(12);
